@@ -7,6 +7,7 @@ import (
 	"net/http"
 	"net/http/httptest"
 	"path"
+	"sort"
 	"strconv"
 	"strings"
 	"time"
@@ -272,12 +273,36 @@ func C08(c *vlib.Ctx) {
 				switch rt.Kind {
 				case "basic":
 					var user, pass string
-					for u, p := range rt.Users {
-						user, pass = u, p
-						break
+					var unames []string
+					for u := range rt.Users {
+						unames = append(unames, u)
 					}
+					sort.Strings(unames)
+					user = vlib.Pick(r, unames)
+					pass = rt.Users[user]
 					scheme := "Basic "
-					switch m := r.Intn(12); {
+					rawCred := ""
+					switch m := r.Intn(22); {
+					case m == 12:
+						mut, user, pass = "unknown_user_empty_password", "nobody", ""
+					case m == 13:
+						mut, user, pass = "empty_user_empty_password", "", ""
+					case m == 14:
+						mut, user = "empty_user", ""
+					case m == 15:
+						mut, user, pass = "padded_user_empty_password", user+" ", ""
+					case m == 16:
+						mut, rawCred = "no_colon", user
+					case m == 17:
+						mut, rawCred = "no_colon_user_and_password", user+pass
+					case m == 18:
+						mut, user = "user_trailing_space", user+" "
+					case m == 19:
+						mut, pass = "password_trailing_space", pass+" "
+					case m == 20:
+						mut, user, pass = "unknown_user_known_password", "nobody", pass
+					case m == 21:
+						mut, user, pass = "swapped_user_and_password", pass, user
 					case m == 0:
 						mut, pass = "wrong_password", pass+"x"
 					case m == 1:
@@ -296,7 +321,11 @@ func C08(c *vlib.Ctx) {
 						mut, pass = "password_case", strings.ToUpper(pass)
 					}
 					if mut != "no_header" {
-						q.Headers["Authorization"] = scheme + base64.StdEncoding.EncodeToString([]byte(user+":"+pass))
+						cred := user + ":" + pass
+						if rawCred != "" {
+							cred = rawCred
+						}
+						q.Headers["Authorization"] = scheme + base64.StdEncoding.EncodeToString([]byte(cred))
 					}
 					if mut == "valid" && r.Chance(0.2) && len(rt.Users) > 1 {
 						// password of another user
